@@ -131,6 +131,53 @@ func init() {
 		})
 		ex.setBool("c20ThresholdTimerFromPool", nGet == 1 && nRel == 1 && !otherUse && contains(ss, "timer := pool.GetTimer(f.fastFallbackDuration)"), true,
 			"the secondary goroutine's threshold timer is `pool.GetTimer(f.fastFallbackDuration)`, released by a deferred `pool.ReleaseTimer`, and otherwise only received from")
+		// whose timer it is: borrowed, released (deferred, i.e. when that goroutine ends) and received from inside ONE
+		// function literal that is started with `go` - the goroutine that waits on the timer holds it until it ends
+		{
+			var stack []ast.Node
+			owner := func() ast.Node {
+				for i := len(stack) - 1; i >= 0; i-- {
+					if fl, ok := stack[i].(*ast.FuncLit); ok {
+						return fl
+					}
+				}
+				return nil
+			}
+			goLit := map[ast.Node]bool{}
+			var getIn, relIn, recvIn []ast.Node
+			ast.Inspect(f.Body, func(n ast.Node) bool {
+				if n == nil {
+					stack = stack[:len(stack)-1]
+					return true
+				}
+				switch x := n.(type) {
+				case *ast.GoStmt:
+					if fl, ok := x.Call.Fun.(*ast.FuncLit); ok {
+						goLit[fl] = true
+					}
+				case *ast.AssignStmt:
+					if ex.str(x) == "timer := pool.GetTimer(f.fastFallbackDuration)" {
+						getIn = append(getIn, owner())
+					}
+				case *ast.DeferStmt:
+					if ex.str(x) == "defer pool.ReleaseTimer(timer)" {
+						relIn = append(relIn, owner())
+					}
+				case *ast.UnaryExpr:
+					if ex.str(x) == "<-timer.C" {
+						recvIn = append(recvIn, owner())
+					}
+				}
+				stack = append(stack, n)
+				return true
+			})
+			held := len(getIn) == 1 && len(relIn) == 1 && len(recvIn) >= 1 && getIn[0] != nil && goLit[getIn[0]] && relIn[0] == getIn[0]
+			for _, o := range recvIn {
+				held = held && o == getIn[0]
+			}
+			ex.setBool("c20TimerHeldByItsReader", held, true,
+				"the threshold timer is borrowed (`pool.GetTimer`), released (deferred `pool.ReleaseTimer`) and received from (`<-timer.C`) inside one `go func() {...}()` literal of doFallback: the goroutine that waits on it holds it until it ends (false: e.g. doFallback itself borrows and releases it while a goroutine it started receives from it)")
+		}
 	})
 	// pkg/pool: what a released timer looks like when it is handed out again
 	factFuncs = append(factFuncs, func(ex *factExtractor) {
